@@ -6,7 +6,7 @@ From Coq Require Import ZArith NArith List Bool.
 From Centro Require Import Base.Topo Base.Skel Base.TopoPar Base.TopoSweep Base.TopoGrid Gen.TablesC05.
 From Centro Require Import Model.ThinSkel Spec.TopoCheck Proofs.ThinSkelTopo Proofs.ThinSkelIdem Proofs.TopoCounts
   Proofs.TopoSwShrinkEnd Proofs.ShrinkPoint Proofs.LabelsIndep Proofs.TopoCheckComplete
-  Proofs.EndPixelParity Proofs.EndPixelSep Proofs.EndPixel Proofs.ShrinkPointFull Proofs.TopoCheckPoints Proofs.RonseLastD.
+  Proofs.EndPixelParity Proofs.EndPixelSep Proofs.EndPixel Proofs.ShrinkPointFull Proofs.TopoCheckPoints Proofs.RonseLastD Proofs.TopoRestrict Proofs.ObjectProps.
 Open Scope Z_scope.
 
 (* skeletonize_loop with the current removal table: every image size, every image, every
@@ -204,3 +204,69 @@ Theorem C05_ronse_last_pixel_sides : forall (X X' : img) p u, TopoEq X X' -> X p
      path adj8 (fun q => fg X q /\ q <> p) u a -> path adj8 (fun q => fg X q /\ q <> p) (pNE p) b -> False).
 Proof. exact last_in_D_sides. Qed.
 Print Assumptions C05_ronse_last_pixel_sides.
+
+(* ---- Round 5: one for-all theorem per clause of the property text ----
+   "only remove foreground pixels": *)
+Theorem C05_thin_subset : forall H W iters g p, wf H W g ->
+  img_of (thin_model H W iters g) p = true -> img_of g p = true.
+Proof. exact thin_subset. Qed.
+Print Assumptions C05_thin_subset.
+Theorem C05_shrink_subset : forall H W k g p, wf H W g ->
+  img_of (shrink_model H W k g) p = true -> img_of g p = true.
+Proof. exact shrink_subset. Qed.
+Print Assumptions C05_shrink_subset.
+Theorem C05_skeletonize_subset : forall H W ordering g p, wf H W g ->
+  img_of (skeletonize_ord H W ordering g) p = true -> img_of g p = true.
+Proof. exact skeletonize_subset. Qed.
+Print Assumptions C05_skeletonize_subset.
+
+(* "so the Euler number of EVERY OBJECT is preserved": TopoEq restricts to any union C of 8-components
+   of X - the object keeps its own component and hole structure whatever the other objects do (with
+   C05_topo_counts_fg/bg: one component, the same number of holes, the same Euler number, per object) *)
+Theorem C05_object_topo : forall X X' C, TopoEq X X' -> comps_closed X C -> TopoEq C (restr C X').
+Proof. exact TopoEq_restrict. Qed.
+Print Assumptions C05_object_topo.
+Theorem C05_thin_object_topo : forall H W iters g C, wf H W g -> comps_closed (img_of g) C ->
+  TopoEq C (restr C (img_of (thin_model H W iters g))).
+Proof. exact thin_object_topo. Qed.
+Print Assumptions C05_thin_object_topo.
+Theorem C05_shrink_object_topo : forall H W k g C, wf H W g -> comps_closed (img_of g) C ->
+  TopoEq C (restr C (img_of (shrink_model H W k g))).
+Proof. exact shrink_object_topo. Qed.
+Print Assumptions C05_shrink_object_topo.
+Theorem C05_skeletonize_object_topo : forall H W ordering g C, wf H W g -> comps_closed (img_of g) C ->
+  TopoEq C (restr C (img_of (skeletonize_ord H W ordering g))).
+Proof. exact skeletonize_object_topo. Qed.
+Print Assumptions C05_skeletonize_object_topo.
+
+(* "binary_shrink reduces every hole-free object to a single pixel", for an object C of ANY image
+   (other objects may have holes, C may lie inside a hole of another object) *)
+Theorem C05_shrink_object_to_point : forall H W g C, wf H W g -> comps_closed (img_of g) C ->
+  connected C -> hole_free C -> (exists a, C a = true) ->
+  exists q, forall p, restr C (img_of (shrink_model H W (-1) g)) p = true <-> p = q.
+Proof. exact shrink_object_to_point. Qed.
+Print Assumptions C05_shrink_object_to_point.
+
+(* every group of passes only removes pixels, and the pixel count is unchanged exactly when nothing was
+   removed: the code's break test detects convergence exactly (with C05_thin_converged /
+   C05_shrink_converged: the loop limit len(index_i) is never the reason the loop ends early) *)
+Theorem C05_passes_monotone : forall H W ks g, wf H W g ->
+  (count (run_passes H W ks g) <= count g)%nat /\ (count (run_passes H W ks g) = count g -> run_passes H W ks g = g).
+Proof. exact passes_monotone. Qed.
+Print Assumptions C05_passes_monotone.
+
+Theorem C05_skeletonize_loop_subset : forall H W order g p, wf H W g -> NoDup order ->
+  (forall q, In q order -> img_of g q = true) ->
+  img_of (skel_loop_grid H W order g) p = true -> img_of g p = true.
+Proof. exact skeletonize_loop_subset. Qed.
+Print Assumptions C05_skeletonize_loop_subset.
+
+(* the Euler number (8-components minus holes, counted with representative lists) is preserved; per
+   object: apply it to C05_object_topo *)
+Theorem C05_euler_preserved : forall X X' l m', TopoEq X X' ->
+  comp_reps adj8 (fg X) l -> comp_reps adj4 (bg X') m' ->
+  exists l' m, comp_reps adj8 (fg X') l' /\ comp_reps adj4 (bg X) m /\
+    length l' = length l /\ length m = length m' /\
+    Z.of_nat (length l) - (Z.of_nat (length m) - 1) = Z.of_nat (length l') - (Z.of_nat (length m') - 1).
+Proof. exact euler_preserved. Qed.
+Print Assumptions C05_euler_preserved.
